@@ -27,6 +27,7 @@ RULES = {
     "R-err": "error-value construction mapped to the env's abstract error constructor (payload formatting dropped)",
     "R-path": "path/generic syntax adapted (turbofish, crate:: prefixes, trait-qualified calls) with no change of callee",
     "R-map": "`r.map(C)` / `r.map(|v| E)` on a Result desugared to `match r { Ok(v) => Ok(C(v)), Err(e) => Err(e) }` (the definition of Result::map); where the mapped callee is a gc allocation or trait-object call it is named by the env helper carrying its assumed contract",
+    "R-arm": "a match arm of the interpreter loop wrapped as a function (signature from spec.toml: pattern variables become parameters, `self` becomes the context parameter); only the arm's own statements are verified, not the dispatch",
     "R-slice": "slice/Vec API call mapped to the env helper with the std semantics stated as its contract",
 }
 
@@ -60,6 +61,49 @@ def _check_structs(spec):
                 raise Broken("field/variant %s of %s disappeared from %s" % (fld, sc["name"], sc["file"]))
 
 
+def _extract_arm(arm):
+    """Cut one arm out of a `match` inside a function: returns (raw arm expression text, line number)."""
+    src = read(os.path.join(REPO, arm["file"]))
+    try:
+        f = rustscan.find_fn(src, arm["fn"], within=arm.get("within"))
+    except rustscan.ScanError as e:
+        raise Broken("lost anchor %s in %s: %s" % (arm["fn"], arm["file"], e))
+    masked = rustscan.mask(src)
+    try:
+        _, ob, cb = rustscan.find_block(src, masked, arm["match"], f.body_open, f.body_close)
+    except rustscan.ScanError:
+        raise Broken("match block %r not found in %s::%s" % (arm["match"], arm["file"], arm["fn"]))
+    region_m = masked[ob + 1:cb]
+    depth = 0
+    depth_at = []
+    for ch in region_m:
+        depth_at.append(depth)
+        if ch in "([{":
+            depth += 1
+        elif ch in ")]}":
+            depth -= 1
+    hit = None
+    for m in re.finditer(arm["pattern"], region_m):
+        if depth_at[m.start()] == 0:
+            hit = m
+            break
+    if hit is None:
+        raise Broken("arm %r not found in %s::%s" % (arm["pattern"], arm["file"], arm["fn"]))
+    i = hit.end()
+    while region_m[i].isspace():
+        i += 1
+    if region_m[i] == "{":
+        j = rustscan.match_close(region_m, i)
+        body = src[ob + 1 + i: ob + 1 + j + 1]
+    else:
+        j = i
+        while j < len(region_m) and not (region_m[j] == "," and depth_at[j] == 0):
+            j += 1
+        body = "{ " + src[ob + 1 + i: ob + 1 + j] + "; }"
+    line = src.count("\n", 0, ob + 1 + hit.start()) + 1
+    return body, line
+
+
 def _falsify(contract):
     """vacuity probe: add `false` to the postcondition; the function must then FAIL to verify, otherwise its
     precondition (or an assumed callee contract on its path) is contradictory."""
@@ -78,13 +122,26 @@ def assemble(unit, vacuity=False):
     blocks = {}      # into -> [text]
     order = []
     finfo = {}
-    for fn in spec.get("fn", []):
-        src = read(os.path.join(REPO, fn["file"]))
-        try:
-            f = rustscan.find_fn(src, fn["name"], within=fn.get("within"), nth=fn.get("nth", 0))
-        except rustscan.ScanError as e:
-            raise Broken("lost anchor %s in %s: %s" % (fn["id"], fn["file"], e))
-        raw = f.text
+    items = [dict(x, _kind="fn") for x in spec.get("fn", [])] + [dict(x, _kind="arm") for x in spec.get("arm", [])]
+    for fn in items:
+        if fn["_kind"] == "arm":
+            body_raw, line = _extract_arm(fn)
+
+            class _F:  # duck-typed like rustscan.Fn for the bookkeeping below
+                pass
+            f = _F()
+            f.line = line
+            fn = dict(fn, name="arm " + fn["pattern"])
+            if fn.get("tail"):
+                body_raw = "{ " + body_raw + "; " + fn["tail"] + " }"
+            raw = fn["sig"] + " " + body_raw
+        else:
+            src = read(os.path.join(REPO, fn["file"]))
+            try:
+                f = rustscan.find_fn(src, fn["name"], within=fn.get("within"), nth=fn.get("nth", 0))
+            except rustscan.ScanError as e:
+                raise Broken("lost anchor %s in %s: %s" % (fn["id"], fn["file"], e))
+            raw = f.text
         text = rustscan.strip_comments(raw)
         text, fired = _apply_rewrites(text, fn.get("rewrites", []), fn["id"])
         # splice the contract before the body's opening brace
